@@ -8,8 +8,11 @@ import sys
 
 from . import env
 
-EVID_DIR = os.path.join(env.VERIF, "evidence")
-REPLAY_DIR = os.path.join(env.VERIF, "replays")
+# VERIF_OUT redirects evidence and replays (used only by the mutant driver, so that runs
+# against a mutated copy never overwrite the evidence of the real tree)
+_OUT = os.environ.get("VERIF_OUT") or env.VERIF
+EVID_DIR = os.path.join(_OUT, "evidence")
+REPLAY_DIR = os.path.join(_OUT, "replays")
 SCHEMA = os.path.join(env.VERIF, "schemas", "EVIDENCE.schema.json")
 KNOWN = os.path.join(env.VERIF, "known-findings.txt")
 
